@@ -56,4 +56,8 @@ const (
 	// ENCRYPTED_LEASESET_MIN_ENCRYPTED_SIZE is the minimum encrypted data size:
 	// ephemeral_key(32) + nonce(12) + plaintext(1 min) + tag(16) = 61 bytes.
 	ENCRYPTED_LEASESET_MIN_ENCRYPTED_SIZE int = 61
+
+	// ENCRYPTED_LEASESET_MAX_ENCRYPTED_SIZE is the largest encrypted data size the 2-byte
+	// inner length field can describe.
+	ENCRYPTED_LEASESET_MAX_ENCRYPTED_SIZE int = 65535
 )
